@@ -21,6 +21,11 @@ func runC02(c *Ctx) {
 	r02_3(c, "R02.3")
 	r02_4(c, "R02.4")
 	r02_5(c, "R02.5")
+	// a re-sync is empty only if the writer leaves exactly the identity the
+	// differ compares: the metadata writer's order matters (a chown after the
+	// chmod clears setuid/setgid, so the file differs again on every pass) -
+	// shared with C01
+	r01_2(c, "R02.6")
 }
 
 // identity fields: all exported fields of types.Stat minus these, with reason.
@@ -354,16 +359,7 @@ func r02_3(c *Ctx, rule string) {
 	// a sameFile error must end the loop
 	c.ObErrChecked(rule+"/checked", sf)
 	// operand provenance
-	fromCell := func(name string) func(ssa.Value) bool {
-		return func(v ssa.Value) bool {
-			u, ok := v.(*ssa.UnOp)
-			if !ok || u.Op != token.MUL {
-				return false
-			}
-			fv, ok := u.X.(*ssa.FreeVar)
-			return ok && fv.Name() == name
-		}
-	}
+	fromCell := fromLoc
 	// identify the two entry cells semantically: the cell fed by nextPath on
 	// the channel handed to walker `a` is the destination side.
 	aCell, bCell := walkerCells(c, loop)
@@ -457,15 +453,46 @@ func (c *Ctx) DerivesFromLocal(v ssa.Value, pred func(ssa.Value) bool, depth int
 	return rec(v, 0)
 }
 
-// walkerCells returns the names of the captured entry variables fed from
-// walker a's and walker b's channel.
+// A location is where the diff loop keeps a piece of its state: a captured or
+// local variable ("var:f1") or a field of its state object
+// ("field:fsutil.diffWalkState.lower").
+func locOfAddr(addr ssa.Value) string {
+	switch a := addr.(type) {
+	case *ssa.FreeVar:
+		return "var:" + a.Name()
+	case *ssa.Alloc:
+		if a.Comment != "" {
+			return "var:" + a.Comment
+		}
+	case *ssa.FieldAddr:
+		return "field:" + eng.FieldOwnerName(a.X.Type(), a.Field)
+	}
+	return ""
+}
+
+// loadLoc: v loads a location; "" otherwise.
+func loadLoc(v ssa.Value) string {
+	if u, ok := v.(*ssa.UnOp); ok && u.Op == token.MUL {
+		return locOfAddr(u.X)
+	}
+	return ""
+}
+
+// fromLoc is the provenance predicate "v reads location loc".
+func fromLoc(loc string) func(ssa.Value) bool {
+	return func(v ssa.Value) bool { return loc != "" && loadLoc(v) == loc }
+}
+
+// walkerCells returns the locations of the pending entries fed from walker
+// a's and walker b's channel: the channel handed to a (b) is identified at the
+// call of a (b); the entry location is where the result of nextPath on that
+// channel - or on a field initialised from it - is stored.
 func walkerCells(c *Ctx, loop *ssa.Function) (aCell, bCell string) {
 	dwd := loop.Parent()
 	if dwd == nil {
 		return
 	}
-	// channel cell handed to a / b
-	chanOf := map[string]string{} // "a" -> cell name
+	chanOf := map[string]string{} // "a" -> location of the channel
 	for _, cl := range eng.Closures(dwd) {
 		for _, call := range eng.Calls(cl) {
 			n := c.P.CalleeName(call)
@@ -473,25 +500,33 @@ func walkerCells(c *Ctx, loop *ssa.Function) (aCell, bCell string) {
 				continue
 			}
 			for _, a := range call.Common().Args {
-				if u, ok := eng.Strip(a).(*ssa.UnOp); ok && u.Op == token.MUL {
-					if fv, ok := u.X.(*ssa.FreeVar); ok {
-						chanOf[strings.TrimPrefix(n, "freevar:")] = fv.Name()
-					}
+				if l := loadLoc(eng.Strip(a)); l != "" && strings.HasPrefix(l, "var:") {
+					chanOf[strings.TrimPrefix(n, "freevar:")] = l
 				}
 			}
 		}
 	}
-	// entry cell stored from nextPath(ctx, <chan cell>)
+	// a state field initialised from a channel variable stands for that channel
+	alias := map[string]string{}
+	eng.Instrs(loop, func(in ssa.Instruction) {
+		s, ok := in.(*ssa.Store)
+		if !ok {
+			return
+		}
+		if fl := locOfAddr(s.Addr); strings.HasPrefix(fl, "field:") {
+			if vl := loadLoc(eng.Strip(s.Val)); vl != "" && (vl == chanOf["a"] || vl == chanOf["b"]) {
+				alias[fl] = vl
+			}
+		}
+	})
 	for _, call := range c.P.CallsTo(loop, "fsutil.nextPath") {
 		cv, ok := call.(*ssa.Call)
 		if !ok || len(cv.Call.Args) < 2 {
 			continue
 		}
-		var ch string
-		if u, ok := eng.Strip(cv.Call.Args[1]).(*ssa.UnOp); ok && u.Op == token.MUL {
-			if fv, ok := u.X.(*ssa.FreeVar); ok {
-				ch = fv.Name()
-			}
+		ch := loadLoc(eng.Strip(cv.Call.Args[1]))
+		if a, ok := alias[ch]; ok {
+			ch = a
 		}
 		for _, r := range eng.Referrers(cv) {
 			e, ok := r.(*ssa.Extract)
@@ -499,13 +534,13 @@ func walkerCells(c *Ctx, loop *ssa.Function) (aCell, bCell string) {
 				continue
 			}
 			for _, r2 := range eng.Referrers(e) {
-				if s, ok := r2.(*ssa.Store); ok {
-					if fv, ok := s.Addr.(*ssa.FreeVar); ok {
-						if ch == chanOf["a"] {
-							aCell = fv.Name()
+				if s, ok := r2.(*ssa.Store); ok && s.Val == ssa.Value(e) {
+					if l := locOfAddr(s.Addr); l != "" {
+						if ch != "" && ch == chanOf["a"] {
+							aCell = l
 						}
-						if ch == chanOf["b"] {
-							bCell = fv.Name()
+						if ch != "" && ch == chanOf["b"] {
+							bCell = l
 						}
 					}
 				}
@@ -606,7 +641,7 @@ func r02_5(c *Ctx, rule string) {
 	callers := c.P.CallGraph().Callers(raf)
 	c.R.Exact(rule, "call sites of requestAsyncFileData", len(callers), 1)
 	for _, cs := range callers {
-		c.R.Check(cs.Parent() == hc, rule, c.siteName(cs)+"/caller", c.pos(cs), "called from DiskWriter.HandleChange", "requestAsyncFileData is called from "+c.name(cs.Parent()))
+		c.R.Check(c.onlyIn(cs, c.name(hc)), rule, c.siteName(cs)+"/caller", c.pos(cs), "called from DiskWriter.HandleChange", "requestAsyncFileData is called from "+c.name(cs.Parent()))
 	}
 	isReq := c.callPred("fsutil.(*DiskWriter).requestAsyncFileData")
 	x := c.explorer(hc)
